@@ -12,7 +12,7 @@ def run(ctx):
     violations, ties = [], []
     if any(k in ctx.build_errors for k in ("harness", "ocaml", "shim")):
         ties.append({"what": "correspondence machinery did not build", "detail": list(ctx.build_errors)})
-        return C.finish(ctx, PROPS, aud, {"evaluations": 0, "distinct_nontrivial": 0, "samples": []}, violations, ties, ASSUME, level="exploration")
+        return C.finish(ctx, PROPS, aud, {"evaluations": 0, "distinct_nontrivial": 0, "samples": []}, violations, ties, ASSUME, level="proof")
     res, nb = R.run_races(ctx)
     nontriv, samples, agree = 0, [], 0
     for desc, L, k, er, call, path, impl, diffs in res:
@@ -66,4 +66,4 @@ def run(ctx):
         cov["coqchk"] = o[-600:]
         if rc != 0:
             aud["problems"].append("coqchk failed: " + o[-500:])
-    return C.finish(ctx, PROPS, aud, cov, uniq, ties[:20], ASSUME, level="exploration")
+    return C.finish(ctx, PROPS, aud, cov, uniq, ties[:20], ASSUME, level="proof")
